@@ -1,5 +1,14 @@
+//@ if timer_real
 //@ item src/sources/timer.rs / struct TimeoutData props=C05
 //@ rw R6 1 <<struct TimeoutData {>> => <<pub(crate) struct TimeoutData {>>
 //@ enditem
 //@ item src/sources/timer.rs / struct TimerWheel props=C05
 //@ enditem
+//@ else
+//@ region timer_types_opaque
+/// Units that do not look inside the timer wheel see it as an opaque type (rule D1): an edit of its fields then concerns
+/// only the units that verify timer code (timerwheel, timer, pollslices).
+#[verifier::external_body] #[derive(Debug)]
+pub(crate) struct TimerWheel { _p: () }
+//@ endregion
+//@ endif
